@@ -80,6 +80,21 @@ func c03Seq(tokens []string, conc int, extra string, b Bounds) *Scenario {
 						}
 						for j := i + 1; j < len(h.msgs); j++ {
 							for _, r := range h.msgs[j].Members {
+								if r.Kind == 'i' {
+									// a built-in has no harness handler; its reply is the observable: it must not be
+									// produced while the earlier notification is still running
+									for _, o := range outEvents(x, "srv") {
+										ms, _, _ := parseRecord([]byte(o.Raw))
+										for _, m := range ms {
+											if m.ID() == r.ID && m.Has("result") {
+												Hit("C03.R1")
+												if exn, exited := exit[n.Method]; !exited || exn > o.At {
+													v = append(v, Viol{"C03.R1", fmt.Sprintf("the built-in %s (message %d) was answered before notification %s (message %d) had returned", r.Method, j, n.Method, i)})
+												}
+											}
+										}
+									}
+								}
 								if !r.hasHandler() {
 									continue
 								}
@@ -174,6 +189,7 @@ func c03GateX(first, later string, conc int, b Bounds) *Scenario {
 func c03Scenarios(tier string) []*Scenario {
 	var out []*Scenario
 	core := [][]string{
+		{"n", "i"}, {"z", "i"}, {"[nc]", "i"},
 		{"z", "z"}, {"z", "c"},
 		{"n", "c"}, {"n", "n"}, {"n", "[cc]"}, {"[nc]", "c"}, {"[cn]", "n"}, {"[nn]", "c"}, {"n", "[nc]"},
 		{"c", "n", "c"}, {"n", "c", "n"}, {"n", "n", "c"}, {"[nc]", "n", "c"}, {"c", "[nn]", "c"},
@@ -186,9 +202,9 @@ func c03Scenarios(tier string) []*Scenario {
 			}
 			out = append(out, c03Seq(t, 2, xNone, b))
 		}
-		out = append(out, c03Seq([]string{"n", "c"}, 3, xNone, Bounds{2, -1, 0}))
+		out = append(out, c03Seq([]string{"n", "c"}, 3, xNone, Bounds{2, -1, 0}), c03Seq([]string{"n", "i"}, 2, xNone, Bounds{2, -1, 0}))
 		// Concurrency 1: ordering must not be left to the execution slot
-		for _, t := range [][]string{{"n", "c"}, {"n", "n"}, {"c", "n", "c"}, {"[nc]", "n"}, {"n", "n", "c"}} {
+		for _, t := range [][]string{{"n", "c"}, {"n", "n"}, {"c", "n", "c"}, {"[nc]", "n"}, {"n", "n", "c"}, {"n", "i"}, {"[nn]", "[ic]"}} {
 			b := Bounds{2, -1, 0}
 			if len(t) == 3 {
 				b = Bounds{1, -1, 0}
